@@ -27,6 +27,8 @@ pub struct CrashX {
     scratch: Scratch,
     /// run the traced operation with background tasks executed as late as possible
     lazy: bool,
+    /// which parts of the sync pipeline the lazy schedule holds back (`verif::lazy::set_pools`)
+    lazy_pools: u8,
     lazy_stats: (u64, u64, u64),
 }
 
@@ -36,6 +38,7 @@ impl CrashX {
             hist: HistX::new(),
             scratch: Scratch::new("crashx"),
             lazy: false,
+            lazy_pools: nomt::verif::lazy::ALL_POOLS,
             lazy_stats: (0, 0, 0),
         }
     }
@@ -902,6 +905,7 @@ impl CrashX {
             ex.n = None;
         }
         let lazy = self.lazy;
+        nomt::verif::lazy::set_pools(self.lazy_pools);
         let (r, tr) = record(|| {
             nomt::verif::lazy::enable(lazy);
             let r = ex.step(target, op);
@@ -945,8 +949,11 @@ impl CrashX {
         let cap = case["cap"].as_u64().unwrap_or(5) as usize;
         let nested = case["nested"].as_bool().unwrap_or(true);
         self.lazy = case["lazy"].as_bool().unwrap_or(false);
+        self.lazy_pools = case["lazy_pools"].as_u64().map_or(nomt::verif::lazy::ALL_POOLS, |m| m as u8);
         let traced = self.run_traced(prop, hist, target);
         self.lazy = false;
+        self.lazy_pools = nomt::verif::lazy::ALL_POOLS;
+        nomt::verif::lazy::set_pools(nomt::verif::lazy::ALL_POOLS);
         let (ex, pre, old, tr, _ok) = match traced {
             Ok(x) => x,
             Err(v) => {
